@@ -1,4 +1,6 @@
 import DaliVerif.Tie.Special
+import DaliVerif.Tie.Command
+import DaliVerif.Tie.Event
 import DaliVerif.Props.C02
 /-!
 # C02's round trip, stated about the constructors as translated from the source on this run
@@ -78,6 +80,123 @@ theorem devSpecial2_roundtrip (c : DevSpecialClass) (hk : c.kind = .two) (a b : 
     ∃ bits d, Gen.SrcSpecial.devSpecial2 c.addr a b = .ok ((d : Nat) : Int) ∧
       decode Gen.tables bits d (dtOf (.devSpecial c a b)) (mapFor (.devSpecial c a b)) = .devSpecial c a b :=
   roundtrip_of_tie _ h _ (Special.devSpecial2_tie c hk a b)
+
+
+/-! ## the address-carrying command families (the destination's `add_to_frame` is whatever `Tie/Address.lean`
+proves of the translated `dali/address.py`: hypothesis `AddsLike`) -/
+open DaliVerif.Tie.Command in
+theorem stdNoParam_roundtrip (c : StdClass) (hc : c.hasparam = false) (a : Addr)
+    (addDest : Int → Except PyErr Int) (hadd : AddsLike 16 addDest a.addToFrame) (h : WF Gen.tables (.standard c a 0)) :
+    ∃ bits d, Gen.SrcCommand.stdNoParam addDest c.cmdval = .ok ((d : Nat) : Int) ∧
+      decode Gen.tables bits d (dtOf (.standard c a 0)) (mapFor (.standard c a 0)) = .standard c a 0 :=
+  roundtrip_of_tie _ h _ (Command.stdNoParam_tie c hc a addDest hadd)
+
+open DaliVerif.Tie.Command in
+theorem devStd_roundtrip (c : DevClass) (a : Addr)
+    (addDest : Int → Except PyErr Int) (hadd : AddsLike 24 addDest a.addToFrame) (h : WF Gen.tables (.devStd c a)) :
+    ∃ bits d, Gen.SrcCommand.devStd addDest c.opcode = .ok ((d : Nat) : Int) ∧
+      decode Gen.tables bits d (dtOf (.devStd c a)) (mapFor (.devStd c a)) = .devStd c a :=
+  roundtrip_of_tie _ h _ (Command.devStd_tie c a addDest hadd)
+
+open DaliVerif.Tie.Command in
+theorem devInst_roundtrip (c : DevClass) (a : Addr) (i : Inst) (addDest addInst : Int → Except PyErr Int)
+    (hadd : AddsLike 24 addDest a.addToFrame) (hinst : AddsLike 24 addInst i.addToFrame)
+    (h : WF Gen.tables (.devInst c a i)) :
+    ∃ bits d, Gen.SrcCommand.devInst addDest addInst c.opcode = .ok ((d : Nat) : Int) ∧
+      decode Gen.tables bits d (dtOf (.devInst c a i)) (mapFor (.devInst c a i)) = .devInst c a i :=
+  roundtrip_of_tie _ h _ (Command.devInst_tie c a i addDest addInst hadd hinst)
+
+/-! ## events (part 103 Table 3 schemes; the device/instance scheme decodes through the map naming its type) -/
+theorem ev_device_roundtrip (cls : String) (pc : PushClass) (itype sa : Nat)
+    (h : WF Gen.tables (.event cls itype (.device sa) (.pushbutton pc))) :
+    ∃ bits d, Gen.SrcEvent.ev_device pc.info itype sa = .ok ((d : Nat) : Int) ∧
+      decode Gen.tables bits d (dtOf (.event cls itype (.device sa) (.pushbutton pc)))
+        (mapFor (.event cls itype (.device sa) (.pushbutton pc))) = .event cls itype (.device sa) (.pushbutton pc) :=
+  roundtrip_of_tie _ h _ (Event.ev_device_tie cls pc itype sa)
+theorem evLight_device_roundtrip (cls : String) (itype sa v : Nat)
+    (h : WF Gen.tables (.event cls itype (.device sa) (.light v))) :
+    ∃ bits d, Gen.SrcEvent.evLight_device 0 itype sa v = .ok ((d : Nat) : Int) ∧
+      decode Gen.tables bits d (dtOf (.event cls itype (.device sa) (.light v)))
+        (mapFor (.event cls itype (.device sa) (.light v))) = .event cls itype (.device sa) (.light v) :=
+  roundtrip_of_tie _ h _ (Event.evLight_device_tie cls itype sa v)
+theorem evOcc_device_roundtrip (cls : String) (itype sa data : Nat)
+    (h : WF Gen.tables (Event.occOf cls itype (.device sa) data)) :
+    ∃ bits d, Gen.SrcEvent.evOcc_device 0 itype sa data = .ok ((d : Nat) : Int) ∧
+      decode Gen.tables bits d (dtOf (Event.occOf cls itype (.device sa) data))
+        (mapFor (Event.occOf cls itype (.device sa) data)) = Event.occOf cls itype (.device sa) data :=
+  roundtrip_of_tie _ h _ (Event.evOcc_device_tie cls itype sa data)
+theorem ev_deviceInstance_roundtrip (cls : String) (pc : PushClass) (itype sa inum : Nat)
+    (h : WF Gen.tables (.event cls itype (.deviceInstance sa inum) (.pushbutton pc))) :
+    ∃ bits d, Gen.SrcEvent.ev_deviceInstance pc.info itype sa inum = .ok ((d : Nat) : Int) ∧
+      decode Gen.tables bits d (dtOf (.event cls itype (.deviceInstance sa inum) (.pushbutton pc)))
+        (mapFor (.event cls itype (.deviceInstance sa inum) (.pushbutton pc))) = .event cls itype (.deviceInstance sa inum) (.pushbutton pc) :=
+  roundtrip_of_tie _ h _ (Event.ev_deviceInstance_tie cls pc itype sa inum)
+theorem evLight_deviceInstance_roundtrip (cls : String) (itype sa inum v : Nat)
+    (h : WF Gen.tables (.event cls itype (.deviceInstance sa inum) (.light v))) :
+    ∃ bits d, Gen.SrcEvent.evLight_deviceInstance 0 itype sa inum v = .ok ((d : Nat) : Int) ∧
+      decode Gen.tables bits d (dtOf (.event cls itype (.deviceInstance sa inum) (.light v)))
+        (mapFor (.event cls itype (.deviceInstance sa inum) (.light v))) = .event cls itype (.deviceInstance sa inum) (.light v) :=
+  roundtrip_of_tie _ h _ (Event.evLight_deviceInstance_tie cls itype sa inum v)
+theorem evOcc_deviceInstance_roundtrip (cls : String) (itype sa inum data : Nat)
+    (h : WF Gen.tables (Event.occOf cls itype (.deviceInstance sa inum) data)) :
+    ∃ bits d, Gen.SrcEvent.evOcc_deviceInstance 0 itype sa inum data = .ok ((d : Nat) : Int) ∧
+      decode Gen.tables bits d (dtOf (Event.occOf cls itype (.deviceInstance sa inum) data))
+        (mapFor (Event.occOf cls itype (.deviceInstance sa inum) data)) = Event.occOf cls itype (.deviceInstance sa inum) data :=
+  roundtrip_of_tie _ h _ (Event.evOcc_deviceInstance_tie cls itype sa inum data)
+theorem ev_deviceGroup_roundtrip (cls : String) (pc : PushClass) (itype g : Nat)
+    (h : WF Gen.tables (.event cls itype (.deviceGroup g) (.pushbutton pc))) :
+    ∃ bits d, Gen.SrcEvent.ev_deviceGroup pc.info itype g = .ok ((d : Nat) : Int) ∧
+      decode Gen.tables bits d (dtOf (.event cls itype (.deviceGroup g) (.pushbutton pc)))
+        (mapFor (.event cls itype (.deviceGroup g) (.pushbutton pc))) = .event cls itype (.deviceGroup g) (.pushbutton pc) :=
+  roundtrip_of_tie _ h _ (Event.ev_deviceGroup_tie cls pc itype g)
+theorem evLight_deviceGroup_roundtrip (cls : String) (itype g v : Nat)
+    (h : WF Gen.tables (.event cls itype (.deviceGroup g) (.light v))) :
+    ∃ bits d, Gen.SrcEvent.evLight_deviceGroup 0 itype g v = .ok ((d : Nat) : Int) ∧
+      decode Gen.tables bits d (dtOf (.event cls itype (.deviceGroup g) (.light v)))
+        (mapFor (.event cls itype (.deviceGroup g) (.light v))) = .event cls itype (.deviceGroup g) (.light v) :=
+  roundtrip_of_tie _ h _ (Event.evLight_deviceGroup_tie cls itype g v)
+theorem evOcc_deviceGroup_roundtrip (cls : String) (itype g data : Nat)
+    (h : WF Gen.tables (Event.occOf cls itype (.deviceGroup g) data)) :
+    ∃ bits d, Gen.SrcEvent.evOcc_deviceGroup 0 itype g data = .ok ((d : Nat) : Int) ∧
+      decode Gen.tables bits d (dtOf (Event.occOf cls itype (.deviceGroup g) data))
+        (mapFor (Event.occOf cls itype (.deviceGroup g) data)) = Event.occOf cls itype (.deviceGroup g) data :=
+  roundtrip_of_tie _ h _ (Event.evOcc_deviceGroup_tie cls itype g data)
+theorem ev_instanceGroup_roundtrip (cls : String) (pc : PushClass) (itype g : Nat)
+    (h : WF Gen.tables (.event cls itype (.instanceGroup g) (.pushbutton pc))) :
+    ∃ bits d, Gen.SrcEvent.ev_instanceGroup pc.info itype g = .ok ((d : Nat) : Int) ∧
+      decode Gen.tables bits d (dtOf (.event cls itype (.instanceGroup g) (.pushbutton pc)))
+        (mapFor (.event cls itype (.instanceGroup g) (.pushbutton pc))) = .event cls itype (.instanceGroup g) (.pushbutton pc) :=
+  roundtrip_of_tie _ h _ (Event.ev_instanceGroup_tie cls pc itype g)
+theorem evLight_instanceGroup_roundtrip (cls : String) (itype g v : Nat)
+    (h : WF Gen.tables (.event cls itype (.instanceGroup g) (.light v))) :
+    ∃ bits d, Gen.SrcEvent.evLight_instanceGroup 0 itype g v = .ok ((d : Nat) : Int) ∧
+      decode Gen.tables bits d (dtOf (.event cls itype (.instanceGroup g) (.light v)))
+        (mapFor (.event cls itype (.instanceGroup g) (.light v))) = .event cls itype (.instanceGroup g) (.light v) :=
+  roundtrip_of_tie _ h _ (Event.evLight_instanceGroup_tie cls itype g v)
+theorem evOcc_instanceGroup_roundtrip (cls : String) (itype g data : Nat)
+    (h : WF Gen.tables (Event.occOf cls itype (.instanceGroup g) data)) :
+    ∃ bits d, Gen.SrcEvent.evOcc_instanceGroup 0 itype g data = .ok ((d : Nat) : Int) ∧
+      decode Gen.tables bits d (dtOf (Event.occOf cls itype (.instanceGroup g) data))
+        (mapFor (Event.occOf cls itype (.instanceGroup g) data)) = Event.occOf cls itype (.instanceGroup g) data :=
+  roundtrip_of_tie _ h _ (Event.evOcc_instanceGroup_tie cls itype g data)
+theorem ev_inst_roundtrip (cls : String) (pc : PushClass) (itype inum : Nat)
+    (h : WF Gen.tables (.event cls itype (.inst inum) (.pushbutton pc))) :
+    ∃ bits d, Gen.SrcEvent.ev_inst pc.info itype inum = .ok ((d : Nat) : Int) ∧
+      decode Gen.tables bits d (dtOf (.event cls itype (.inst inum) (.pushbutton pc)))
+        (mapFor (.event cls itype (.inst inum) (.pushbutton pc))) = .event cls itype (.inst inum) (.pushbutton pc) :=
+  roundtrip_of_tie _ h _ (Event.ev_inst_tie cls pc itype inum)
+theorem evLight_inst_roundtrip (cls : String) (itype inum v : Nat)
+    (h : WF Gen.tables (.event cls itype (.inst inum) (.light v))) :
+    ∃ bits d, Gen.SrcEvent.evLight_inst 0 itype inum v = .ok ((d : Nat) : Int) ∧
+      decode Gen.tables bits d (dtOf (.event cls itype (.inst inum) (.light v)))
+        (mapFor (.event cls itype (.inst inum) (.light v))) = .event cls itype (.inst inum) (.light v) :=
+  roundtrip_of_tie _ h _ (Event.evLight_inst_tie cls itype inum v)
+theorem evOcc_inst_roundtrip (cls : String) (itype inum data : Nat)
+    (h : WF Gen.tables (Event.occOf cls itype (.inst inum) data)) :
+    ∃ bits d, Gen.SrcEvent.evOcc_inst 0 itype inum data = .ok ((d : Nat) : Int) ∧
+      decode Gen.tables bits d (dtOf (Event.occOf cls itype (.inst inum) data))
+        (mapFor (Event.occOf cls itype (.inst inum) data)) = Event.occOf cls itype (.inst inum) data :=
+  roundtrip_of_tie _ h _ (Event.evOcc_inst_tie cls itype inum data)
 
 /-! non-vacuity: the hypotheses are met by commands of the tree under test -/
 example : WF Gen.tables (.special ⟨"gear.general.EnableDeviceType", 193, true, .plain⟩ 8) :=
